@@ -624,6 +624,9 @@ func (vc *FnVC) checkAts(st *State, in ssa.Instruction) {
 		if !strings.Contains(txt, a.Text) {
 			continue
 		}
+		if _, isCall := in.(ssa.CallInstruction); a.CallOnly && !isCall {
+			continue
+		}
 		key := fmt.Sprintf("%p|%s", in, a.Text)
 		if vc.atDone == nil {
 			vc.atDone = map[string]bool{}
@@ -641,6 +644,11 @@ func (vc *FnVC) checkAts(st *State, in ssa.Instruction) {
 		}
 		env := vc.envAt(st, li)
 		env.bodyLocals = true
+		if ci, isCall := in.(ssa.CallInstruction); isCall {
+			for _, av := range ci.Common().Args {
+				env.callArgs = append(env.callArgs, vc.val(st, av))
+			}
+		}
 		t, err := vc.evalBool(env, a.C.E)
 		if err != nil {
 			vc.contractError("at %q: %v", a.Text, err)
@@ -714,6 +722,7 @@ func (vc *FnVC) doReturn(st *State, r *ssa.Return) {
 		vc.frameCheck(st)
 	}
 	vc.enumChecks(st, env)
+	vc.preservesCheck(st, env)
 }
 
 func clauseLabel2(c Clause, i int) string {
@@ -1442,4 +1451,39 @@ func (vc *FnVC) ownedValue(v ssa.Value) bool {
 		}
 	}
 	return true
+}
+
+// preservesCheck: `preserves T, ...` -- no field of an object of struct type T that existed when the function was
+// entered has changed when it returns (shared configuration objects are not written at transaction time).
+func (vc *FnVC) preservesCheck(st *State, env *Env) {
+	if len(vc.unit.Preserves) == 0 {
+		return
+	}
+	alloc0 := entrySym("$alloc")
+	id := func(x string) string { return x }
+	for _, tn := range vc.unit.Preserves {
+		t, err := env.parseType(tn)
+		if err != nil {
+			vc.contractError("preserves %s: %v", tn, err)
+			continue
+		}
+		if _, ok := t.Underlying().(*types.Struct); !ok {
+			vc.contractError("preserves %s: not a struct type", tn)
+			continue
+		}
+		seen := map[string]bool{}
+		for _, lf := range vc.leafFields(t, id, id) {
+			if seen[lf.key] {
+				continue
+			}
+			seen[lf.key] = true
+			cur, touched := st.m[lf.key]
+			if !touched || cur == entrySym(lf.key) {
+				continue
+			}
+			goal := fmt.Sprintf("(forall ((r Int)) (=> (<= (ref.root r) %s) (= (select %s r) (select %s r))))", alloc0, cur, entrySym(lf.key))
+			vc.curInstr = nil
+			vc.oblige(st, "preserves", tn+"/"+shortKey(lf.key), goal, "no pre-existing "+tn+" object is modified (field heap "+lf.key+")")
+		}
+	}
 }
